@@ -3,7 +3,7 @@
 # /verif/refactorings/<id>/patch.diff to a scratch worktree of /repo's HEAD (/tmp/wt-port), runs the pinned suite and then
 # the given checks (default: all 19, quick tier) on the refactored tree: none may print a VIOLATION line.
 id="$1"; shift
-wt=/tmp/wt-port
+wt=${WT:-/tmp/wt-port}   # scratch worktree (WT=... for parallel shards)
 export GOFLAGS=-mod=mod GOPROXY=off
 [ -d $wt ] || git -C /repo worktree add --detach $wt HEAD >/dev/null 2>&1
 cd $wt || exit 9
